@@ -91,6 +91,15 @@ func (l *Index[T]) Has(sig xtype.Signature) bool {
 	return ok
 }
 
+// All returns every item registered for the signature, whatever contexts it requires.
+func (l *Index[T]) All(sig xtype.Signature) []*T {
+	items := []*T{}
+	for _, hit := range l.Exact[sig] {
+		items = append(items, hit.Item)
+	}
+	return items
+}
+
 func (l *Index[T]) Get(sig xtype.Signature, m map[string]*xtype.Type) (*T, error) {
 	hits, ok := l.Exact[sig]
 	if !ok {
